@@ -1401,7 +1401,7 @@ func (x *Exec) holdsPre(fr *Frame, st *State, fc *FuncContract, name, site strin
 			}
 		}
 		x.oblige(fr, st, "pre", fmt.Sprintf("%s/holds-shard@%s", name, site), BoolLit(ok), pc.e)
-		x.Obls[len(x.Obls)-1].Tag = "C14 C15"
+		x.Obls[len(x.Obls)-1].Tag = "C14 C15 C12" // C12: its per-operation induction assumes the operations on one key are serialised
 	}
 }
 
